@@ -343,10 +343,10 @@ func fileCases(tier string, o fileOpts) []Case {
 func init() {
 	modes["C17"] = ModeSpec{
 		Cases: func(t string) []Case { return fileCases(t, fileOpts{c17: true}) },
-		Rule: "every file of every engine-written layout (flushes, merges incl. by differently configured engines, all compressions, partitions, minmax keys); each file is parsed by an independent reader of FILE_FORMAT.md and every block's counts, sizes, CRC, compression and measured entry counts are recomputed; public helpers must agree byte for byte",
+		Rule:  "every file of every engine-written layout (flushes, merges incl. by differently configured engines, all compressions, partitions, minmax keys); each file is parsed by an independent reader of FILE_FORMAT.md and every block's counts, sizes, CRC, compression and measured entry counts are recomputed; public helpers must agree byte for byte",
 	}
 	modes["C18"] = ModeSpec{
 		Cases: func(t string) []Case { return fileCases(t, fileOpts{c18: true}) },
-		Rule: "same files as C17; every field/token/field:token entry the reference derives from a block's rows must test positive in the block's and the file's filters; minmax key sets and ranges are recomputed from the original Go values (math/big), partition ids from the partition function",
+		Rule:  "same files as C17; every field/token/field:token entry the reference derives from a block's rows must test positive in the block's and the file's filters; minmax key sets and ranges are recomputed from the original Go values (math/big), partition ids from the partition function",
 	}
 }
